@@ -263,6 +263,9 @@ theorem gapFitsBack_of_valid (S : Schema) (doc : Node) (f t gf gt : Nat) (old re
     congr 1
     omega
   have key : rem.insertAt S (gf - f) gap.content = .ok (some old) := by
+    have hrs := (removeBetween_size old rem (gf - f) (gt - f) (by omega) hrm).1
+    have hbound : ((gf - f : Nat) : Int) ≤ rem.size := by rw [hrs, hosz]; omega
+    rw [insertAt_of_le hbound]
     unfold Slice.removeBetween at hrm
     simp only at hrm
     split at hrm
@@ -273,7 +276,7 @@ theorem gapFitsBack_of_valid (S : Schema) (doc : Node) (f t gf gt : Nat) (old re
         have hc := insert_remove_any S gap.content hgn.1 old.content c1 (gf - f + old.openStart)
           (gt - f + old.openStart) none old.openStart old.openEnd hon.1 (by omega) hc1 hov
           (by intro p hp; simp at hp) (by rw [hwin]; congr 1; omega) hal
-        simp only [Slice.insertAt, hc]
+        simp only [Slice.insertAtIn, hc]
       · simp at hrm
   refine ⟨?_, key⟩
   simp only [gapFitsBack, hsl, hgap, hrm, key]
